@@ -176,58 +176,115 @@ def replay_object(chk, case, rng, grad_budget):
         bad("exception", "unexpected %s: %s" % (type(e).__name__, e))
 
 
+def build_items(descs, start):
+    """real objects for a list of descriptors, every entry labelled (base differs per object)."""
+    out = []
+    for j, o in enumerate(descs):
+        base = 1e7 * (start + j + 1)
+        out.append(build(o["T"], o["d"], o["m"], o["para"], lambda cell, base=base: base + label(cell)))
+    return out
+
+
+def set_tag(st):
+    return "|".join("%s:%s" % (mode, ",".join("d%dm%d%s" % (o["d"], o["m"], "p" if o["para"] else "n") for o in st[mode]))
+                    for mode in ("state", "gate", "povm", "mprocess"))
+
+
+def check_set(chk, sq, objs, size, total, tag, bad):
+    """every report of the operation set `sq` against the specification's layout (size, total) of the lists `objs`."""
+    total = [tuple(t) for t in total]
+    if sq.size_var_total() != size:
+        bad("size", "size_var_total()=%d, specification %d" % (sq.size_var_total(), size))
+        return False
+    vt = np.asarray(sq.var_total()).ravel()
+    if len(vt) != size:
+        bad("var_total:length", "len(var_total())=%d, specification %d" % (len(vt), size))
+        return False
+    for k, (mode, item, local) in enumerate(total):
+        want = np.asarray(objs[mode][item].to_var()).ravel()[local]
+        if vt[k] != want:
+            bad("var_total", "var_total()[%d] is not variable %d of %s[%d]" % (k, local, mode, item))
+            return False
+        got = sq.index_var_total_from_local_info(mode, item, local)
+        if got != k:
+            bad("index_var_total_from_local_info", "(%s,%d,%d) -> %d, specification %d" % (mode, item, local, got, k))
+            return False
+        info = sq.local_info_from_index_var_total(k)
+        if (info["mode"], info["index_operations"], info["index_var_local"]) != (mode, item, local):
+            bad("local_info_from_index_var_total", "%d -> %s, specification %s" % (k, info, (mode, item, local)))
+            return False
+    chk.count(3 * len(total), ("set", tag))
+    # regenerate the whole set from a labelled total vector
+    newv = np.array([float(11 + 7 * k) for k in range(len(total))], dtype=np.float64)
+    sq2 = sq.set_qoperations_from_var_total(newv)
+    back = np.asarray(sq2.var_total()).ravel()
+    if not np.array_equal(back, newv):
+        bad("set_qoperations_from_var_total", "var_total of the regenerated set differs from the vector given")
+        return False
+    for k, (mode, item, local) in enumerate(total):
+        ob = sq2.qoperations(mode)[item]
+        if np.asarray(ob.to_var()).ravel()[local] != newv[k]:
+            bad("set_qoperations_from_var_total:place", "total index %d did not reach %s[%d] variable %d" % (k, mode, item, local))
+            return False
+    return True
+
+
 def replay_set(chk, case):
     from quara.objects.qoperations import SetQOperations
     st = case["set"]
     objs = {}
-    flat = []
+    n = 0
     for mode in ("state", "gate", "povm", "mprocess"):
-        objs[mode] = []
-        for j, o in enumerate(st[mode]):
-            base = 1e7 * (len(flat) + 1)
-            ob = build(o["T"], o["d"], o["m"], o["para"], lambda cell, base=base: base + label(cell))
-            objs[mode].append(ob)
-            flat.append((mode, j, ob))
-    tag = "|".join("%s:%s" % (mode, ",".join("d%dm%d%s" % (o["d"], o["m"], "p" if o["para"] else "n") for o in st[mode]))
-                   for mode in ("state", "gate", "povm", "mprocess"))
+        objs[mode] = build_items(st[mode], n)
+        n += len(objs[mode])
+    tag = set_tag(st)
 
     def bad(clause, msg):
         chk.violation("set:%s:%s" % (clause, tag), msg, dict(set=st, clause=clause))
 
     try:
         sq = SetQOperations(states=objs["state"], gates=objs["gate"], povms=objs["povm"], mprocesses=objs["mprocess"])
-        total = [tuple(t) for t in case["total"]]
-        if sq.size_var_total() != case["size"]:
-            bad("size", "size_var_total()=%d, specification %d" % (sq.size_var_total(), case["size"]))
-            return
-        vt = np.asarray(sq.var_total()).ravel()
-        for k, (mode, item, local) in enumerate(total):
-            want = np.asarray(objs[mode][item].to_var()).ravel()[local]
-            if vt[k] != want:
-                bad("var_total", "var_total()[%d] is not variable %d of %s[%d]" % (k, local, mode, item))
-                break
-            got = sq.index_var_total_from_local_info(mode, item, local)
-            if got != k:
-                bad("index_var_total_from_local_info", "(%s,%d,%d) -> %d, specification %d" % (mode, item, local, got, k))
-                break
-            info = sq.local_info_from_index_var_total(k)
-            if (info["mode"], info["index_operations"], info["index_var_local"]) != (mode, item, local):
-                bad("local_info_from_index_var_total", "%d -> %s, specification %s" % (k, info, (mode, item, local)))
-                break
-        chk.count(3 * len(total), ("set", tag))
-        # regenerate the whole set from a labelled total vector
-        newv = np.array([float(11 + 7 * k) for k in range(len(total))], dtype=np.float64)
-        sq2 = sq.set_qoperations_from_var_total(newv)
-        back = np.asarray(sq2.var_total()).ravel()
-        if not np.array_equal(back, newv):
-            bad("set_qoperations_from_var_total", "var_total of the regenerated set differs from the vector given")
-        for k, (mode, item, local) in enumerate(total):
-            ob = sq2.qoperations(mode)[item]
-            if np.asarray(ob.to_var()).ravel()[local] != newv[k]:
-                bad("set_qoperations_from_var_total:place", "total index %d did not reach %s[%d] variable %d" % (k, mode, item, local))
-                break
+        check_set(chk, sq, objs, case["size"], case["total"], tag, bad)
     except Exception as e:
         bad("exception", "unexpected %s: %s" % (type(e).__name__, e))
+
+
+ATTR = {"state": "states", "gate": "gates", "povm": "povms", "mprocess": "mprocesses"}
+
+
+def replay_set_walk(chk, walk):
+    """QSetLife: one long-lived SetQOperations driven through a walk of list assignments (the setters); after every
+    assignment all reports must be those of the lists it holds now."""
+    from quara.objects.qoperations import SetQOperations
+    st = walk[0]["from"]
+    objs, n = {}, 0
+    for mode in ("state", "gate", "povm", "mprocess"):
+        objs[mode] = build_items(st[mode], n)
+        n += 10
+    sq = SetQOperations(states=objs["state"], gates=objs["gate"], povms=objs["povm"], mprocesses=objs["mprocess"])
+    try:
+        # reading before the first assignment fills whatever the set may cache
+        sq.size_var_total(), sq.var_total()
+        for k in range(sq.size_var_total()):
+            sq.local_info_from_index_var_total(k)
+    except Exception:
+        pass
+    for step, tr in enumerate(walk):
+        mode, lst = tr["arg"]["mode"], tr["arg"]["list"]
+        tag = "%s := [%s] in %s" % (mode, ",".join("m%d%s" % (o["m"], "p" if o["para"] else "n") for o in lst), set_tag(tr["from"]))
+        ctx = dict(start=st, walk=[w["arg"] for w in walk[:step + 1]], step=step)
+
+        def bad(clause, msg):
+            chk.violation("setlife:%s:%s" % (clause, mode), "after %s: %s" % (tag, msg), ctx)
+        try:
+            n += 10
+            objs[mode] = build_items(lst, n)
+            setattr(sq, ATTR[mode], objs[mode])
+            if not check_set(chk, sq, objs, tr["size"], tr["total"], "walk:" + set_tag(tr["to"]), bad):
+                return
+        except Exception as e:
+            bad("exception", "unexpected %s: %s" % (type(e).__name__, e))
+            return
 
 
 def tomo_numvars(chk):
@@ -271,6 +328,19 @@ def run(chk):
             if nset in (5, 500):
                 chk.sample(dict(set=case["set"], size=case["size"], total_head=case["total"][:5]))
         chk.replayed += 1
+    # operation sets along histories (spec/QSetLife.tla): setters on one long-lived set
+    from harness import graphwalk
+    chk.tlc("mc/MC_SetLife", "mc/MC_SetLife_%s.cfg" % t, workers=8, label="MC_SetLife " + t)
+    r2 = chk.tlc("mc/MC_SetLife", "mc/MC_SetLife_%s_emit.cfg" % t, workers=1, label="MC_SetLife emit " + t)
+    g = graphwalk.Graph(r2.emitted)
+    walks = g.cover_walks(8, rng)
+    empty = [k for k in g.out if all(len(v) == 0 for v in json.loads(k).values())]
+    walks += g.random_walks(40 if t == "quick" else 300, 12, rng, starts=set(empty))
+    for wk in walks:
+        replay_set_walk(chk, wk)
+        chk.replayed += 1
+    chk.notes["setlife_transitions"] = len(r2.emitted)
+    chk.notes["setlife_walks"] = len(walks)
     for (T, d, m, para, got) in tomo_numvars(chk):
         want = numvar.get((T, d, m, para))
         chk.count(1)
